@@ -738,3 +738,19 @@ val prov_step : sys -> aid list -> event -> aid list option
 val prov_run : sys -> aid list -> event list -> (sys * aid list) option
 
 val chk_C05 : event list -> bool
+
+type m16 = { kids : nat list map0; cnt : nat map0 }
+
+val m16_init : m16
+
+val kids_of : m16 -> aid -> nat list
+
+val cnt_of : m16 -> aid -> nat
+
+val count_ty : nat -> nat list -> nat
+
+val m16_step : m16 -> event -> m16 option
+
+val m16_run : m16 -> event list -> m16 option
+
+val chk_C16 : event list -> bool
